@@ -841,7 +841,9 @@ def rule_s(draw, name, svcs):
     return [name, f]
 
 
-RULE_NAMES = ["r1", "R2", "r3", "Alpha", "beta", "GAMMA", "delta", "a", "B", "c", "zz", "Z1", "m5", "M6"]
+RULE_NAMES = ["r1", "R2", "r3", "Alpha", "beta", "GAMMA", "delta", "a", "B", "c", "zz", "Z1", "m5", "M6",
+              # rule order is the byte order of the lower-cased names: '_' and '[' sort after digits and before / after letters accordingly
+              "oper_eu", "operators", "OPER[1]", "a_b", "aZ", "a`c", "oper^x"]
 
 
 @st.composite
